@@ -104,7 +104,11 @@ impl TextArchive {
 
         let mut archive = BinArchive::new(self.endian);
         archive.allocate_at_end(bytes.len());
-        archive.write_bytes(0, &bytes)?;
+        // A legacy-format archive without entries has no data at all; writing zero bytes at
+        // address 0 of an empty archive is rejected as out of bounds.
+        if !bytes.is_empty() {
+            archive.write_bytes(0, &bytes)?;
+        }
         for (label, address) in label_info {
             archive.write_label(address, label)?;
         }
